@@ -105,13 +105,17 @@ func LibGoroutines() map[string]string {
 		buf = make([]byte, 2*len(buf))
 	}
 	out := map[string]string{}
-	if !bytes.Contains(buf, []byte("\ncreated by github.com/akramarenkov/cqos")) {
+	if !bytes.Contains(buf, []byte("github.com/akramarenkov/cqos")) {
 		return out
 	}
 	for _, g := range bytes.Split(buf, []byte("\n\n")) {
 		s := string(g)
-		// "started by the discipline" = created by a function of the module under test
-		if !strings.Contains(s, "\ncreated by github.com/akramarenkov/cqos") {
+		// "started by the discipline" = created by a function of the module under test, or
+		// executing code of the module without having been created by the harness (a callback
+		// goroutine started on the module's behalf by time.AfterFunc, context.AfterFunc, ...)
+		byLib := strings.Contains(s, "\ncreated by github.com/akramarenkov/cqos")
+		inLib := strings.Contains(s, "github.com/akramarenkov/cqos") && !strings.Contains(s, "\ncreated by cqosverif/") && !strings.Contains(s, "testing/synctest.")
+		if !byLib && !inLib {
 			continue
 		}
 		m := goroutineHeader.FindStringSubmatch(s)
